@@ -167,10 +167,15 @@ def worker(cfg):
                     ctx.assume(s_or(d == 0, d >= sw, -d >= sw))
             claims = []
             for c in range(Cc):
-                for t in range(Lo):
-                    win = [p for p in range(t * S_ - P_, t * S_ - P_ + K) if 0 <= p < Lp]
-                    lhs = s_sum([ite(ix[c, p] - ir[c, p] == 0, 0, new.a[0, c, p] * (ix[c, p] - ir[c, p])) for p in win])
-                    claims.append(lhs == g[c, t] * (outp.a[0, c, t] - outp.a[1, c, t]))
+                if S_ >= K:
+                    for t in range(Lo):
+                        win = [p for p in range(t * S_ - P_, t * S_ - P_ + K) if 0 <= p < Lp]
+                        lhs = s_sum([ite(ix[c, p] - ir[c, p] == 0, 0, new.a[0, c, p] * (ix[c, p] - ir[c, p])) for p in win])
+                        claims.append(lhs == g[c, t] * (outp.a[0, c, t] - outp.a[1, c, t]))
+                else:
+                    # overlapping windows share input positions: the contributions of all windows add up per channel
+                    lhs = s_sum([ite(ix[c, p] - ir[c, p] == 0, 0, new.a[0, c, p] * (ix[c, p] - ir[c, p])) for p in range(Lp)])
+                    claims.append(lhs == s_sum([g[c, t] * (outp.a[0, c, t] - outp.a[1, c, t]) for t in range(Lo)]))
             for c in range(Cc):
                 for p in range(Lp):
                     nz = ix[c, p] - ir[c, p] != 0
@@ -179,7 +184,7 @@ def worker(cfg):
             m, unk = dl.split_prove(ctx, claims, "_maxpool rule lemma")
             out["unknown"] += unk
             if m is not None:
-                add("rule:maxpool", "_maxpool does not distribute grad_out * delta_out over the pooling window", dict(cfg, arch="convmaxpad" if cfg.get("padding") else "convmax", A=2, L=4 if cfg.get("padding") else 5, target=1, B=2, ns=2))
+                add("rule:maxpool", "_maxpool does not distribute grad_out * delta_out over the pooling window", dict(cfg, arch="convmaxpad" if cfg.get("padding") else ("convmaxov" if S_ < K else "convmax"), A=2, L=4 if cfg.get("padding") else 5, target=1, B=2, ns=2))
             return "returned"
         core.explore(body, stats=stats, max_paths=5000)
 
@@ -283,6 +288,7 @@ def _band_maxnet(net, x, ref):
 def configs(tier):
     q = tier == "quick"
     cf = [dict(kind="lemma_nonlinear", n=2), dict(kind="lemma_maxpool", C=1, L=4, K=2), dict(kind="lemma_maxpool", C=1, L=3, K=3, padding=1),
+          dict(kind="lemma_maxpool", C=1, L=3, K=2, stride=1),           # overlapping pooling windows
           dict(kind="e2e", arch="dense1", A=2, L=2, B=1, ns=2, target=0, n_shuffles_arg=1),
           dict(kind="e2e", arch="dense1", A=2, L=2, B=1, ns=2, target=1), dict(kind="e2e", arch="affine", A=2, L=3, B=2, ns=2, target=0, batch_size=3),
           dict(kind="e2e", arch="conv", A=2, L=2, B=1, ns=1, target=0)]
